@@ -7,7 +7,7 @@ def check(ctx):
                               ('PortMonitor', 'sizes'), ('PortMonitor', 'sizes_byte'),
                               ('Device', 'element_id'), ('Device', 'element_id.setter'), ('OutMixIn', 'out'),
                               ('OutMixIn', 'out.setter')])
-    R.run_tables(ctx, 'C09', [('Store', '_do_put'), ('Store', '_do_get'), ('Store', '__init__')])
+    R.run_tables(ctx, 'C09', [('Store', '_do_put@unbounded'), ('Store', '_do_get')])
     elements.byte_accounting(ctx, 'C09')
     elements.override_keeps_base_effects(ctx, 'C09')
     elements.spawn_sites(ctx, 'C09', only=('Port', 'REDPort'))
